@@ -84,6 +84,10 @@ def is_digit(b):
     return z3.And(z3.UGE(b, 0x30), z3.ULE(b, 0x39))
 
 
+def is_alpha(b):
+    return z3.Or(z3.And(z3.UGE(b, 0x41), z3.ULE(b, 0x5a)), z3.And(z3.UGE(b, 0x61), z3.ULE(b, 0x7a)))
+
+
 def is_hexdigit(b):
     return z3.Or(is_digit(b), z3.And(z3.UGE(b, 0x41), z3.ULE(b, 0x46)), z3.And(z3.UGE(b, 0x61), z3.ULE(b, 0x66)))
 
@@ -325,14 +329,18 @@ class Models:
         A(r'^core::str::<impl str>::bytes$', lambda ex, c, a: Iter('bytes', to_slice(ex, a[0]), 0))
         A(r'^<std::str::Bytes<\'_> as Iterator>::(all|any)::<', self.m_bytes_all_any)
         A(r'^core::str::<impl str>::chars$', lambda ex, c, a: Iter('chars', to_slice(ex, a[0]), 0))
+        A(r'^<&smallvec::SmallVec<.*> as IntoIterator>::into_iter$', lambda ex, c, a: Iter('slice', self.any_slice(ex, a[0]), 0))
         A(r'^<.* as IntoIterator>::into_iter$', lambda ex, c, a: a[0])
         A(r'^<Chars<\'_> as Iterator>::next$', self.m_chars_next)
+        A(r'^<(?:Chars<\'_>|std::str::Bytes<\'_>|(?:std|core)::slice::Iter<\'_, .*>) as Iterator>::try_fold::<', self.m_try_fold)
         A(r'^core::str::<impl str>::split::<char>$', lambda ex, c, a: Iter('split', to_slice(ex, a[0]), 0, dict(ch=a[1], done=False)))
         A(r'^<std::str::Split<\'_, char> as Iterator>::next$', self.m_split_next)
         A(r'^<str as std::ops::Index<.*>>::index$', self.m_index_range)
         A(r'^<\[u8\] as (?:std::ops::|core::ops::)?Index<.*>>::index$', self.m_index_range)
         A(r'^core::slice::<impl \[u8\]>::split::<', lambda ex, c, a: Iter('splitp', self.any_slice(ex, a[0]), 0, dict(pred=a[1], done=False)))
         A(r'^<(?:std|core)::slice::Split<.*> as Iterator>::collect::<Vec<', self.m_split_collect)
+        A(r'^<(?:std|core)::slice::Split<.*> as Iterator>::(all|any)::<', self.m_split_all_any)
+        A(r'^<(?:std|core)::slice::Split<.*> as Iterator>::count$', lambda ex, c, a: usize(len(self.m_split_collect(ex, c, a).items)))
         A(r'^Vec::<.*>::len$', lambda ex, c, a: usize(len(ex.deref(a[0]).items)))
         A(r'^<Vec<.*> as Deref>::deref$', lambda ex, c, a: Slice(list(ex.deref(a[0]).items), 0, len(ex.deref(a[0]).items), False))
         A(r'^core::slice::<impl \[.*\]>::iter$', lambda ex, c, a: Iter('slice', self.any_slice(ex, a[0]), 0))
@@ -343,6 +351,10 @@ class Models:
         A(r'^<(?:std|core)::slice::Iter<\'_, .*> as Iterator>::next$', self.m_iter_next)
         A(r'^core::num::<impl u8>::is_ascii_whitespace$', lambda ex, c, a: z3.simplify(is_ws(ex.deref(a[0]).e)))
         A(r'^core::num::<impl u8>::is_ascii_digit$', lambda ex, c, a: z3.simplify(is_digit(ex.deref(a[0]).e)))
+        A(r'^core::num::<impl u8>::is_ascii_alphabetic$', lambda ex, c, a: z3.simplify(is_alpha(ex.deref(a[0]).e)))
+        A(r'^core::num::<impl u8>::is_ascii_alphanumeric$', lambda ex, c, a: z3.simplify(z3.Or(is_alpha(ex.deref(a[0]).e), is_digit(ex.deref(a[0]).e))))
+        A(r'^core::num::<impl u8>::is_ascii_uppercase$', lambda ex, c, a: z3.simplify(z3.And(z3.UGE(ex.deref(a[0]).e, 0x41), z3.ULE(ex.deref(a[0]).e, 0x5a))))
+        A(r'^core::num::<impl u8>::is_ascii_lowercase$', lambda ex, c, a: z3.simplify(z3.And(z3.UGE(ex.deref(a[0]).e, 0x61), z3.ULE(ex.deref(a[0]).e, 0x7a))))
         A(r'^core::num::<impl u8>::is_ascii_hexdigit$', lambda ex, c, a: z3.simplify(is_hexdigit(ex.deref(a[0]).e)))
         A(r'^core::char::methods::<impl char>::is_ascii_digit$', lambda ex, c, a: z3.simplify(z3.And(z3.UGE(ex.deref(a[0]).e, 0x30), z3.ULE(ex.deref(a[0]).e, 0x39))))
         # ---------------- equality / ordering ----------------
@@ -360,8 +372,13 @@ class Models:
         A(r'^<autosar_data_specification::(EnumItem|AttributeName|ElementName|AutosarVersion) as PartialEq>::(eq|ne)$', self.m_int_enum_eq)
         A(r'^<(str|std::string::String) as Ord>::cmp$', self.m_str_cmp)
         A(r'^<(u64|u32|usize|u8|u16) as Ord>::cmp$', lambda ex, c, a: cmp3(ex, z3.ULT(ex.deref(a[0]).e, ex.deref(a[1]).e), ex.deref(a[0]).e == ex.deref(a[1]).e))
+        A(r'^<(i64|i32|isize|i8|i16) as Ord>::cmp$', lambda ex, c, a: cmp3(ex, ex.deref(a[0]).e < ex.deref(a[1]).e, ex.deref(a[0]).e == ex.deref(a[1]).e))
+        A(r'^<(i64|i32|isize|i8|i16) as PartialOrd>::partial_cmp$', lambda ex, c, a: some(cmp3(ex, ex.deref(a[0]).e < ex.deref(a[1]).e, ex.deref(a[0]).e == ex.deref(a[1]).e)))
+        A(r'^<(u64|u32|usize|u8|u16) as PartialOrd>::partial_cmp$', lambda ex, c, a: some(cmp3(ex, z3.ULT(ex.deref(a[0]).e, ex.deref(a[1]).e), ex.deref(a[0]).e == ex.deref(a[1]).e)))
         A(r'^<f64 as PartialOrd>::partial_cmp$', self.m_f64_partial_cmp)
         A(r'^std::cmp::Ordering::then$', lambda ex, c, a: a[1] if a[0].variant == 'Equal' else a[0])
+        A(r'^std::cmp::Ordering::then_with::<', lambda ex, c, a: ex.call_closure(a[1], []) if a[0].variant == 'Equal' else a[0])
+        A(r'^std::cmp::Ordering::is_(eq|ne|lt|gt|le|ge)$', lambda ex, c, a: {'eq': a[0].variant == 'Equal', 'ne': a[0].variant != 'Equal', 'lt': a[0].variant == 'Less', 'gt': a[0].variant == 'Greater', 'le': a[0].variant != 'Greater', 'ge': a[0].variant != 'Less'}[re.search(r'is_(\w+)$', c).group(1)])
         A(r'^std::cmp::Ordering::reverse$', lambda ex, c, a: ordering({'Less': 'Greater', 'Greater': 'Less', 'Equal': 'Equal'}[a[0].variant]))
         A(r'^<u32 as BitAnd<&u32>>::bitand$', lambda ex, c, a: I(z3.simplify(a[0].e & ex.deref(a[1]).e), False, 'u32'))
         # ---------------- integer helpers (hashfunc and friends) ----------------
@@ -416,6 +433,17 @@ class Models:
         A(r'^std::option::Option::<.*>::and_then::<', self.m_and_then)
         A(r'^std::option::Option::<.*>::ok_or_else::<', lambda ex, c, a: ok(a[0].fields[0]) if a[0].variant == 'Some' else err(ex.call_closure(a[1], [])))
         A(r'^std::option::Option::<.*>::map::<', lambda ex, c, a: some(ex.call_closure(a[1], [a[0].fields[0]])) if a[0].variant == 'Some' else a[0])
+        A(r'^std::option::Option::<.*>::or_else::<', lambda ex, c, a: a[0] if a[0].variant == 'Some' else ex.call_closure(a[1], []))
+        A(r'^std::option::Option::<.*>::or$', lambda ex, c, a: a[0] if a[0].variant == 'Some' else a[1])
+        A(r'^std::option::Option::<.*>::unwrap_or_else::<', lambda ex, c, a: a[0].fields[0] if a[0].variant == 'Some' else ex.call_closure(a[1], []))
+        A(r'^std::option::Option::<.*>::map_or::<', lambda ex, c, a: ex.call_closure(a[2], [a[0].fields[0]]) if a[0].variant == 'Some' else a[1])
+        A(r'^std::option::Option::<.*>::is_some_and::<', lambda ex, c, a: ex.call_closure(a[1], [a[0].fields[0]]) if a[0].variant == 'Some' else False)
+        A(r'^std::option::Option::<.*>::filter::<', self.m_opt_filter)
+        A(r'^std::option::Option::<.*>::ok_or::<', lambda ex, c, a: ok(a[0].fields[0]) if a[0].variant == 'Some' else err(a[1]))
+        A(r'^<(?:std::option::)?Option<.*> as Try>::branch$', lambda ex, c, a: Agg('ControlFlow', 'Continue', [a[0].fields[0]]) if a[0].variant == 'Some' else Agg('ControlFlow', 'Break', [NONE()]))
+        A(r'^<(?:std::option::)?Option<.*> as FromResidual<.*>>::from_residual$', lambda ex, c, a: NONE())
+        A(r'^(?:core::)?char::methods::<impl char>::to_digit$', self.m_char_to_digit)
+        A(r'^(?:core::)?char::methods::<impl char>::is_ascii_digit$', lambda ex, c, a: z3.simplify(z3.And(z3.UGE(ex.deref(a[0]).e, 0x30), z3.ULE(ex.deref(a[0]).e, 0x39))))
         A(r'^Result::<.*>::ok$', lambda ex, c, a: some(a[0].fields[0]) if a[0].variant == 'Ok' else NONE())
         A(r'^Result::<.*>::is_ok$', lambda ex, c, a: ex.deref(a[0]).variant == 'Ok')
         A(r'^Result::<.*>::is_err$', lambda ex, c, a: ex.deref(a[0]).variant == 'Err')
@@ -423,6 +451,23 @@ class Models:
         A(r'^Result::<.*>::unwrap$', self.m_unwrap)
         A(r'^<Result<.*> as Try>::branch$', lambda ex, c, a: Agg('ControlFlow', 'Continue', [a[0].fields[0]]) if a[0].variant == 'Ok' else Agg('ControlFlow', 'Break', [err(a[0].fields[0])]))
         A(r'^<Result<.*> as FromResidual<.*>>::from_residual$', lambda ex, c, a: err(a[0].fields[0]))
+        # ---------------- single-threaded stand-ins for Arc / parking_lot (engine E2 has one thread, no scheduler) ----------------
+        A(r'^<std::sync::Arc<.*> as Deref>::deref$', lambda ex, c, a: ex.deref(a[0]).fields[0])
+        A(r'^<std::sync::Arc<.*> as Clone>::clone$', lambda ex, c, a: ex.deref(a[0]))
+        A(r'^parking_lot::lock_api::RwLock::<.*>::(read|write)$', lambda ex, c, a: Agg('Guard', None, [Ref(a[0].cell, list(a[0].path) + [('f', 0)])]))
+        A(r'^parking_lot::lock_api::RwLock::<.*>::try_(read|write)_for$', lambda ex, c, a: some(Agg('Guard', None, [Ref(a[0].cell, list(a[0].path) + [('f', 0)])])))
+        A(r'^<parking_lot::lock_api::RwLock(Read|Write)Guard<.*> as Deref(Mut)?>::deref(_mut)?$', lambda ex, c, a: ex.deref(a[0]).fields[0])
+        A(r'^Duration::from_millis$|^std::time::Duration::from_millis$', lambda ex, c, a: Opaque('Duration'))
+        A(r'^<Element as Clone>::clone$', lambda ex, c, a: ex.deref(a[0]))
+        A(r'^<CharacterData as Clone>::clone$', self.m_clone_cdata)
+        A(r'^<&smallvec::SmallVec<.*> as IntoIterator>::into_iter$', lambda ex, c, a: Iter('slice', self.any_slice(ex, a[0]), 0))
+        A(r'^smallvec::SmallVec::<.*>::len$', lambda ex, c, a: usize(len(ex.deref(a[0]).items)))
+        A(r'^smallvec::SmallVec::<.*>::is_empty$', lambda ex, c, a: len(ex.deref(a[0]).items) == 0)
+        A(r'^core::slice::<impl \[.*\]>::first$', self.m_slice_first)
+        A(r'^core::slice::<impl \[.*\]>::get::<usize>$', self.m_slice_get)
+        A(r'^<smallvec::SmallVec<\[(\w+); \d+\]> as Ord>::cmp$', self.m_smallvec_cmp)
+        A(r'^<std::cmp::Ordering as PartialEq>::(eq|ne)$', lambda ex, c, a: (ex.deref(a[0]).variant == ex.deref(a[1]).variant) == c.endswith('eq'))
+        A(r'^<autosar_data_specification::ContentMode as PartialEq>::(eq|ne)$', lambda ex, c, a: (ex.deref(a[0]).variant == ex.deref(a[1]).variant) == c.endswith('eq'))
         # ---------------- containers that are only appended to / scanned ----------------
         A(r'^Vec::<.*>::push$', self.m_vec_push)
         A(r'^Vec::<.*>::new$', lambda ex, c, a: VecV())
@@ -453,6 +498,55 @@ class Models:
 
     def m_panic(self, ex, c, a):
         raise Panic(c)
+
+    def m_opt_filter(self, ex, c, a):
+        if a[0].variant != 'Some':
+            return a[0]
+        keep = ex.decide(ex.call_closure(a[1], [Ref(Cell(a[0].fields[0]))]))
+        return a[0] if keep else NONE()
+
+    def m_char_to_digit(self, ex, c, a):
+        ch = a[0]
+        radix = ex.concretize(a[1])
+        if radix < 2 or radix > 36:
+            raise Panic('to_digit: radix is too high (maximum 36)')
+        b = z3.Extract(7, 0, ch.e)
+        if ex.decide(z3.UGE(ch.e, 0x80)):
+            return NONE()
+        okd, dv = digit_value(b, radix)
+        if ex.decide(okd):
+            return some(I(z3.simplify(z3.ZeroExt(24, dv)), False, 'u32'))
+        return NONE()
+
+    def m_clone_cdata(self, ex, c, a):
+        v = ex.deref(a[0])
+        if v.variant == 'String':
+            return Agg('CharacterData', 'String', [Str(list(v.fields[0].b))])
+        return Agg('CharacterData', v.variant, list(v.fields))
+
+    def m_slice_first(self, ex, c, a):
+        sl = self.any_slice(ex, a[0])
+        return some(ElemRef(sl, 0)) if sl.len > 0 else NONE()
+
+    def m_slice_get(self, ex, c, a):
+        sl = self.any_slice(ex, a[0])
+        i = ex.concretize(a[1])
+        return some(ElemRef(sl, i)) if i < sl.len else NONE()
+
+    def m_smallvec_cmp(self, ex, c, a):
+        """lexicographic comparison of two vectors through the element type's own Ord::cmp (crate MIR)"""
+        ty = re.search(r'SmallVec<\[(\w+); \d+\]>', c).group(1)
+        x = self.any_slice(ex, a[0])
+        y = self.any_slice(ex, a[1])
+        for i in range(min(x.len, y.len)):
+            o = ex.do_call(f'<{ty} as Ord>::cmp', [ElemRef(x, i), ElemRef(y, i)])
+            if o.variant != 'Equal':
+                return o
+        if x.len < y.len:
+            return ordering('Less')
+        if x.len > y.len:
+            return ordering('Greater')
+        return ordering('Equal')
 
     def m_unwrap(self, ex, c, a):
         v = a[0]
@@ -520,6 +614,31 @@ class Models:
         ch, w = decode_utf8_at(ex, sl.buf, sl.off + it.pos, sl.off + sl.len)
         it.pos += w
         return some(ch)
+
+    def m_try_fold(self, ex, c, a):
+        """Iterator::try_fold for Option / Result accumulators over chars, bytes or slice elements"""
+        it = ex.deref(a[0]) if isinstance(a[0], Ref) else a[0]
+        acc = a[1]
+        rty = None
+        while True:
+            if it.kind == 'chars':
+                nx = self.m_chars_next(ex, c, [Ref(Cell(it))])
+            elif it.kind == 'bytes':
+                nx = self.m_bytes_next(ex, c, [Ref(Cell(it))])
+            else:
+                nx = self.m_iter_next(ex, c, [Ref(Cell(it))])
+            if nx.variant == 'None':
+                break
+            r = ex.call_closure(a[2], [acc, nx.fields[0]])
+            rty = r.ty
+            if r.variant in ('Some', 'Ok', 'Continue'):
+                acc = r.fields[0]
+            else:
+                return r
+        if rty is None:
+            m = re.search(r', ((?:std::option::)?Option|(?:std::result::)?Result|ControlFlow)<', c)
+            rty = 'Option' if (m and 'Option' in m.group(1)) else ('Result' if m and 'Result' in m.group(1) else 'ControlFlow')
+        return Agg(rty, {'Option': 'Some', 'Result': 'Ok', 'ControlFlow': 'Continue'}[rty], [acc])
 
     def m_split_next(self, ex, c, a):
         it = ex.deref(a[0])
@@ -605,6 +724,30 @@ class Models:
                 return False
             if not is_all and r:
                 return True
+        return is_all
+
+    def m_split_all_any(self, ex, c, a):
+        # lazy, like the iterator: the next separator is searched only when the next part is needed
+        it = ex.deref(a[0]) if isinstance(a[0], (Ref,)) else a[0]
+        sl = it.slice
+        is_all = '::all::<' in c
+        start = 0
+        done = False
+        while not done:
+            end = sl.len
+            done = True
+            for i in range(start, sl.len):
+                if ex.decide(ex.call_closure(it.extra['pred'], [ElemRef(sl, i)])):
+                    end = i
+                    done = False
+                    break
+            part = sl.sub(start, end)
+            r = ex.decide(ex.call_closure(a[1], [part]))
+            if is_all and not r:
+                return False
+            if not is_all and r:
+                return True
+            start = end + 1
         return is_all
 
     def m_split_collect(self, ex, c, a):
